@@ -128,6 +128,7 @@ type Ctx struct {
 	USorts map[string]bool
 	tt, ff *Term
 	rcache map[int]srng
+	terms  []*Term
 }
 
 func NewCtx() *Ctx {
@@ -138,6 +139,8 @@ func NewCtx() *Ctx {
 }
 
 func (c *Ctx) NumTerms() int { return c.nextID }
+
+func (c *Ctx) byID(id int) *Term { return c.terms[id] }
 
 func (c *Ctx) mk(t *Term) *Term {
 	k := tkey{op: t.Op, sk: t.S.K, sw: t.S.W, u: t.U, a: t.A, b: t.B, a0: -1, a1: -1, a2: -1}
@@ -168,6 +171,7 @@ func (c *Ctx) mk(t *Term) *Term {
 	t.ID = c.nextID
 	c.nextID++
 	c.tab[k] = t
+	c.terms = append(c.terms, t)
 	return t
 }
 
@@ -598,6 +602,9 @@ func (c *Ctx) BVOp(op Op, a, b *Term) *Term {
 			}
 		}
 	}
+	if (op == OAdd || op == OMul || op == OAnd || op == OOr || op == OXor) && !a.IsConst() && !b.IsConst() && a.ID > b.ID {
+		a, b = b, a
+	}
 	return c.bin(op, a.S, a, b)
 }
 
@@ -944,6 +951,17 @@ func (c *Ctx) BNot(a *Term) *Term {
 	if a.Op == OBNot {
 		return a.Args[0]
 	}
+	// negation normal form: push negations through and/or (bounded size)
+	if (a.Op == OBAnd || a.Op == OBOr) && len(a.Args) <= 8 {
+		neg := make([]*Term, len(a.Args))
+		for i, x := range a.Args {
+			neg[i] = c.BNot(x)
+		}
+		if a.Op == OBAnd {
+			return c.BOr(neg...)
+		}
+		return c.BAnd(neg...)
+	}
 	return c.mk(&Term{Op: OBNot, S: SBool, Args: []*Term{a}})
 }
 
@@ -1015,6 +1033,76 @@ func (c *Ctx) BOr(args ...*Term) *Term {
 	for _, a := range out {
 		if a.Op == OBNot && seen[a.Args[0].ID] {
 			return c.tt
+		}
+		// x or (not-x1 and not-x2 ...) where x1, x2.. are all disjuncts present: tautology
+		if a.Op == OBAnd {
+			all := true
+			for _, l := range a.Args {
+				if !seen[c.BNot(l).ID] {
+					all = false
+					break
+				}
+			}
+			if all {
+				return c.tt
+			}
+		}
+	}
+	if len(out) >= 2 && len(out) <= 6 {
+		// absorption  a or (not-a and b) = a or b ;  (X and l) or (X and not-l) = X
+		for i, a := range out {
+			if a.Op != OBAnd {
+				continue
+			}
+			for _, l := range a.Args {
+				nl := c.BNot(l)
+				if seen[nl.ID] {
+					rest := []*Term{}
+					for _, x := range a.Args {
+						if x != l {
+							rest = append(rest, x)
+						}
+					}
+					no := append([]*Term{}, out[:i]...)
+					no = append(no, out[i+1:]...)
+					no = append(no, c.BAnd(rest...))
+					return c.BOr(no...)
+				}
+			}
+			for k := i + 1; k < len(out); k++ {
+				b := out[k]
+				if b.Op != OBAnd || len(b.Args) != len(a.Args) {
+					continue
+				}
+				inB := map[int]bool{}
+				for _, x := range b.Args {
+					inB[x.ID] = true
+				}
+				var diff *Term
+				nd := 0
+				for _, x := range a.Args {
+					if !inB[x.ID] {
+						diff = x
+						nd++
+					}
+				}
+				if nd == 1 && inB[c.BNot(diff).ID] {
+					common := []*Term{}
+					for _, x := range a.Args {
+						if x != diff {
+							common = append(common, x)
+						}
+					}
+					no := []*Term{}
+					for q, x := range out {
+						if q != i && q != k {
+							no = append(no, x)
+						}
+					}
+					no = append(no, c.BAnd(common...))
+					return c.BOr(no...)
+				}
+			}
 		}
 	}
 	if len(out) == 0 {
